@@ -7,7 +7,7 @@ from runner import Case, CaseSet
 ID = 'C07'
 OBLIGATIONS = ['Props/C07.v', 'Props/Tie/charge_tie.v']
 RULE = ('exhaustive +/-/0 patterns of length 1..n (quick 7, thorough 9) with random spellings; random class sequences up '
-        'to 150 (thorough 300) residues; singletons; non-trivial = distinct sequence with >= 2 charged residues')
+        'to 150 (thorough 300) residues; long homopolymeric / periodic / diblock charged sequences (127..300); singletons; non-trivial = distinct sequence with >= 2 charged residues')
 TRUSTED = ['enclosure of sqrt d by Z.sqrt to 12 decimals (proved sound: C07_enclosure); slack 1e-9 for float rounding']
 ASSUMPTIONS = ['numpy power(x, 0.5) is accurate to 1e-9 relative (sampled, not proved)']
 LEVEL_TEXT = ('Proof (over R, stdlib real axioms): the pair-sum definition of SCD equals the coefficient form sum_d c_d sqrt d / N; '
@@ -30,6 +30,11 @@ def build(ctx):
     rng = ctx.rng
     seqs = [gen_seq.spell(rng, p) for p in gen_seq.patterns_upto(ctx.pick(7, 9))]
     seqs += list(AAS) + gen_seq.random_classes(rng, ctx.pick(250, 800), 1, ctx.pick(150, 300))
+    # long structured sequences: homopolymeric charged tracts, periodic repeats, diblocks (large pair counts per separation)
+    for n in (127, 128, 129, 130, 160, 200, 256, 300):
+        seqs += [rng.choice('KRDE') * n, (rng.choice('KR') + rng.choice('DE')) * (n // 2), 'KKEE' * (n // 4),
+                 (rng.choice('KRDE') + 'G') * (n // 2), 'E' * (n // 2) + 'K' * (n // 2),
+                 'GS' * 10 + rng.choice('DE') * n + 'GS' * 10]
     res = pmap(_scd, seqs)
     cases = []
     ctx.direct_failures = []
